@@ -878,11 +878,16 @@ def readspec(platein, mjd=None, fiber=None, **kwargs):
         run1d = kwargs['run1d']
     else:
         run1d = os.environ['RUN1D']
+    #
+    # Only these keywords describe where the files are.
+    #
+    pathkw = dict([(k, kwargs[k]) for k in ('path', 'topdir', 'run2d')
+                   if k in kwargs])
     if fiber is None:
         #
         # Read all fibers
         #
-        nfibers = number_of_fibers(plate, **kwargs)
+        nfibers = number_of_fibers(plate, **pathkw)
         total_fibers = nfibers.sum()
         platevec = np.zeros(total_fibers, dtype='i4')
         fibervec = np.zeros(total_fibers, dtype='i4')
@@ -908,7 +913,7 @@ def readspec(platein, mjd=None, fiber=None, **kwargs):
         else:
             fibervec = np.zeros(nplate, dtype='i4') + fiber
     if mjd is None:
-        mjdvec = latest_mjd(platevec, **kwargs)
+        mjdvec = latest_mjd(platevec, **pathkw)
     else:
         try:
             nmjd = len(mjd)
